@@ -290,6 +290,10 @@ def endpoint_skeletons() -> dict[str, dict]:
                     "responses": {"204": {"description": "none"}},
                 }
             },
+            # no operationId: the function / module name is derived from method and path
+            "/no/{op-id}/here": {"get": {"parameters": [param("op-id", "path", STR), param("flt", "query", INT)], "responses": {"204": {"description": "none"}}}, "post": {"parameters": [param("op-id", "path", STR)], "responses": {"204": {"description": "none"}}}},
+            # union-typed parameters (each member has to be allowed in the location)
+            "/q/unions": {"get": {"operationId": "queryUnions", "parameters": [param("int-or-str", "query", {"oneOf": [INT, STR]}), param("nullable-int", "query", {"type": ["integer", "null"]}, True)], "responses": {"204": {"description": "none"}}}},
             "/e/{color}/{level}": {
                 "put": {
                     "operationId": "enumPath",
@@ -347,6 +351,8 @@ def endpoint_skeletons() -> dict[str, dict]:
             "/m/b": {"post": {"operationId": "postPartsB", "requestBody": {"content": {"multipart/form-data": {"schema": ref("PartsB")}}}, "responses": {"204": {"description": "none"}}}},
             "/m/d": {"post": {"operationId": "postPartsD", "requestBody": {"content": {"multipart/form-data": {"schema": ref("PartsD")}}}, "responses": {"204": {"description": "none"}}}},
             "/m/c": {"put": {"operationId": "putPartsC", "requestBody": {"content": {"multipart/form-data": {"schema": ref("PartsC")}}}, "parameters": [param("q", "query", STR)], "responses": {"204": {"description": "none"}}}},
+            # a union-typed header (finding C03-F2; kept out of the skeletons other properties share)
+            "/h/union": {"get": {"operationId": "headerUnion", "parameters": [param("X-U", "header", {"anyOf": [INT, BOOL]})], "responses": {"204": {"description": "none"}}}},
             "/m/files": {"post": {"operationId": "postPartsFiles", "requestBody": {"content": {"multipart/form-data": {"schema": ref("PartsFiles")}}}, "responses": {"204": {"description": "none"}}}},
         },
     )
